@@ -11,7 +11,7 @@ import io
 import numpy as np
 
 NAME_POOL = ["GR", "RES", "RES", "", "res", "Res", "NPHI", "x1", "A", "A", "DT", "CALI", "SP_2", "RHOB-C"]
-UNIT_POOL = ["", "m", "ft", "gAPI", "ohm.m", "us/ft", "%", "g/cm3", "F", ".1IN", "v/v", "DEGC"]
+UNIT_POOL = ["", "m", "ft", "gAPI", "ohm.m", "us/ft", "%", "g/cm3", "F", "0.1IN", "v/v", "DEGC"]
 TEXT_POOL = ["", "alpha", "Beta gamma", "well #7", "N/A", "x=1 y=2", "O'Brien \"quoted\"", "(note)", "[b]",
              "ANY OIL COMPANY INC", "12-34-12-34W5M", "15_9", "semi;colon, comma", "Rücken"]
 NUM_POOL = [0, 1, -5, 42, 1500, 0.5, -999.25, 3.25, 1e-05, 123456.789, 2.0, -0.125]
